@@ -1122,7 +1122,12 @@ class OdeSystem(object):
                         prev_time = self.__t[self.counter - 1]
                         self.counter -= 1
 
-                        sol_tuple = (self.__sol, prev_time, next_time)
+                        # the events of a step are examined on the interpolant of that step alone: at its start a lookup in the
+                        # whole solution is answered by the piece of the step before, which ends in the state as it was before
+                        # a callback edited it
+                        __step_sol = DenseOutput(None, None)
+                        __step_sol.add_interpolant(__t_interp, __y_interp)
+                        sol_tuple = (__step_sol, prev_time, next_time)
                         try:
                             active_events, roots, end_int, evs = handle_events(sol_tuple, events, self.constants, direction, is_terminal, (requires_dstate,))
                         except BaseException:
@@ -1143,7 +1148,7 @@ class OdeSystem(object):
                                 true_positive = (prev_time + dTime <= root) & (root <= self.__t[self.counter])
 
                             if true_positive:
-                                ev_state = StateTuple(t=root, y=self.__sol(root), event=ev)
+                                ev_state = StateTuple(t=root, y=__step_sol(root), event=ev)
                                 if not self.__events or last_occurrence[ev_idx] == -1:
                                     last_occurrence[ev_idx] = len(self.__events)
                                     self.__events.append(ev_state)
